@@ -25,6 +25,7 @@ def budget(tier):
 
 def gen_case(seed, tier="quick"):
     r = rnd(seed, "gen")
+    rv = rnd(seed, "falsy")
     n = r.choice((0, 1, 2, 2, 3, 3, 4, 5, 6))
     args = r.sample(objsim.NAMES, n)
     nd = r.randint(0, n)
@@ -37,8 +38,12 @@ def gen_case(seed, tier="quick"):
             keys = list(set(keys) | set(args[:n - nd]))
             r.shuffle(keys)
         mapping = {k: "val_%s_%d" % (k, r.randrange(1000)) for k in keys}
+        for k in keys:
+            if rv.random() < 0.08:
+                mapping[k] = rv.choice((None, 0, False, ""))     # values a truthiness test confuses with "absent"
         hist.append({"op": op, "h": r.randrange(8), "mapping": mapping})
-    return {"format": 1, "property": ID, "engine": "objsim", "seed": seed, "rng": 0, "args": args, "n_defaults": nd,
+    dvals = {a: rv.choice((None, None, 0, False, "")) for a in args[len(args) - nd:] if rv.random() < 0.2} if nd else {}
+    return {"format": 1, "property": ID, "engine": "objsim", "seed": seed, "rng": 0, "args": args, "n_defaults": nd, "dvals": dvals,
             "domain_variant": False, "history": hist, "fault": None}
 
 
